@@ -172,17 +172,46 @@ class RaterMemo:
         return ("label", str(ts))
 
     def get(self, regressor, training_set="zef18", names=None, lda=None):
-        import nanite.rate.rater as nr
         key = (regressor, self.ts_key(training_set),
                None if names is None else tuple(names), lda)
         if key not in self.memo:
-            self.memo[key] = nr.get_rater(regressor=regressor,
-                                          training_set=training_set,
-                                          names=names, lda=lda)
+            self.memo[key] = self.build(regressor, training_set, names, lda)
         return self.memo[key]
 
+    def build(self, regressor, training_set, names, lda):
+        """The library's own convenience constructor (code under test)."""
+        import nanite.rate.rater as nr
+        return nr.get_rater(regressor=regressor, training_set=training_set,
+                            names=names, lda=lda)
 
-RATERS = RaterMemo()
+
+class ReferenceRaterMemo(RaterMemo):
+    """Reference raters are assembled by the harness from the documented
+    pieces (regressor table, training-set loader, IndentationRater), not
+    through get_rater: a label is a label only if the argument *is* one of
+    the shipped names; anything else is a path."""
+
+    def build(self, regressor, training_set, names, lda):
+        import nanite.rate.rater as nr
+        from nanite.rate.regressors import reg_dict
+        if isinstance(training_set, tuple):
+            ts = training_set
+        else:
+            shipped = nr.get_available_training_sets()
+            if isinstance(training_set, str) and training_set in shipped:
+                path = nr.IndentationRater.get_training_set_path(
+                    training_set)
+            else:
+                path = training_set
+            ts = nr.IndentationRater.load_training_set(path=path,
+                                                       names=names)
+        cls, kw = reg_dict[regressor]
+        return nr.IndentationRater(regressor=cls(**dict(kw)),
+                                   training_set=ts, names=names, lda=lda)
+
+
+RATERS = RaterMemo()           # serves the nanite.indent.get_rater seam
+REF_RATERS = ReferenceRaterMemo()
 
 
 def apply_op(idnt, op, log=None):
@@ -265,7 +294,9 @@ def apply_op(idnt, op, log=None):
                 else:
                     idnt.fit_properties[key] = new
             elif kind == "rate":
-                kw = copy.deepcopy(op.get("kw", {}))
+                # "_alias": the caller passes the very objects it holds
+                kw = op.get("kw", {}) if op.get("_alias") \
+                    else copy.deepcopy(op.get("kw", {}))
                 out["ret"] = fhex(idnt.rate_quality(**kw))
             elif kind == "emod":
                 if op.get("samples"):
@@ -599,6 +630,9 @@ def gen_fit_kw(rng, nkeys=None, invalid=False):
                 rng, kw.get("model_key"))
         elif k == "range_type":
             kw[k] = rng.choice(["absolute", "relative cp"])
+            if kw[k] == "relative cp" and rng.random() < 0.3:
+                # first pass succeeds, the later passes have no points
+                kw["range_x"] = rng.choice([[-1e-12, 1e-12], [-1e-12, 0]])
         elif k == "range_x":
             kw[k] = rng.choice([[0, 0], [-1e-6, 5e-7], [-2e-6, 0],
                                 [-5e-7, 1e-6], [5e-7, -1e-6],
@@ -1434,6 +1468,15 @@ def resolve_ts(name, names, scratch):
         d = scratch / "ts_copy"
         if not d.exists():
             shutil.copytree(src, d)
+    elif which == "zef18":
+        # a user directory that merely has the same base name as the
+        # shipped label (different content: every third sample)
+        d = scratch / "user_sets" / "zef18"
+        if not d.exists():
+            d.mkdir(parents=True)
+            for f in sorted(src.glob("train_*.txt")):
+                lines = f.read_text().splitlines()
+                (d / f.name).write_text("\n".join(lines[1::3]) + "\n")
     else:  # "small": every third sample
         d = scratch / "ts_small"
         if not d.exists():
@@ -1442,7 +1485,7 @@ def resolve_ts(name, names, scratch):
                 lines = f.read_text().splitlines()
                 (d / f.name).write_text("\n".join(lines[::3]) + "\n")
     if kind == "dir":
-        return str(d) if which == "copy" else d   # str and pathlib.Path
+        return str(d) if which in ("copy", "zef18") else d   # str and Path
     X, y = IndentationRater.load_training_set(path=d, names=names)
     return (X, y)
 
@@ -1472,9 +1515,12 @@ def gen_rate_kw(rng):
     elif r < 0.75:
         kw["regressor"] = rng.choice(
             ["Extra Trees", "Decision Tree", "Random Forest",
-             "Decision Tree", "Extra Trees"] + REGRESSORS)
+             "Decision Tree", "Extra Trees", "Decision Tree",
+             "Decision Tree", "Decision Tree", "SVR (linear kernel)"]
+            + REGRESSORS)
     ts = rng.choice(["zef18", "zef18", "zef18", "dir:copy", "dir:small",
-                     "mem:copy", "mem:small"])
+                     "mem:copy", "mem:small", "dir:zef18", "held:small",
+                     "held:copy"])
     if rng.random() < 0.35:
         k = rng.randint(2, 6)
         names = rng.sample(CON_FEATURES, k)
@@ -1547,6 +1593,49 @@ class CurveEngineC09:
             if rng.random() < 0.7:
                 ops.append({"op": "fit", "kw": gen_fit_kw(
                     rng, nkeys=rng.choice([0, 0, 1]))})
+        if rng.random() < 0.6:
+            # the same request, a request that differs in exactly one entry
+            # of the cache key, and the first one again
+            kw, ts = copy.deepcopy(rng.choice(pool))
+            kw2, ts2 = copy.deepcopy(kw), ts
+            which = rng.choice(["lda", "lda", "names", "regressor", "ts"])
+            if which == "lda":
+                cur = kw.get("lda")
+                kw2["lda"] = rng.choice([x for x in (None, False, True)
+                                         if x is not cur])
+                if rng.random() < 0.5:
+                    kw["regressor"] = kw2["regressor"] = rng.choice(
+                        ["SVR (linear kernel)", "SVR (RBF kernel)"])
+            elif which == "names":
+                if kw.get("names"):
+                    kw2["names"] = list(reversed(kw["names"])) \
+                        if rng.random() < 0.4 else kw["names"][:-1] + [
+                            c for c in CON_FEATURES
+                            if c not in kw["names"]][:1]
+                else:
+                    kw2["names"] = rng.sample(CON_FEATURES, 4)
+            elif which == "regressor":
+                kw2["regressor"] = rng.choice(
+                    [r_ for r_ in REGRESSORS
+                     if r_ != kw.get("regressor", "Extra Trees")])
+            else:
+                ts2 = rng.choice([t for t in ("zef18", "dir:small",
+                                              "dir:zef18", "mem:small")
+                                  if t != ts])
+            ops.append({"op": "rate", "kw": kw, "ts": ts})
+            ops.append({"op": "rate", "kw": kw2, "ts": ts2})
+            ops.append({"op": "rate", "kw": copy.deepcopy(kw), "ts": ts})
+        for kw, ts in pool:
+            if ts.startswith("held:") and rng.random() < 0.7:
+                # rate, edit the held training set in place, rate again
+                # with the very same objects
+                ops.append({"op": "rate", "kw": copy.deepcopy(kw),
+                            "ts": ts})
+                ops.append({"op": "mutate_ts", "ts": ts,
+                            "col": rng.randrange(12),
+                            "factor": rng.choice([1.5, 0.5, -1.0])})
+                ops.append({"op": "rate", "kw": copy.deepcopy(kw),
+                            "ts": ts})
         while len(ops) < nops:
             r = rng.random()
             if r < 0.45:
@@ -1556,6 +1645,20 @@ class CurveEngineC09:
                 if "names" in kw and rng.random() < 0.2:
                     rng.shuffle(kw["names"])
                 ops.append({"op": "rate", "kw": kw, "ts": ts})
+            elif r < 0.5:
+                # a multi-pass fit whose last pass has no points leaves the
+                # parameters of the first pass behind while success is
+                # False; rate it with a feature subset
+                ops.append({"op": "fit", "kw": {
+                    "range_type": "relative cp",
+                    "range_x": rng.choice([[-1e-12, 1e-12], [-1e-12, 0]])}})
+                kw = {"regressor": rng.choice(["Decision Tree",
+                                               "Extra Trees"]),
+                      "names": rng.sample(
+                          ["feat_con_apr_size", "feat_con_cp_curvature",
+                           "feat_con_idt_monotony", "feat_con_apr_sum",
+                           "feat_con_bln_slope"], 3)}
+                ops.append({"op": "rate", "kw": kw, "ts": "zef18"})
             elif r < 0.75:
                 inv = swarm["invalid"] and rng.random() < 0.15
                 kw = gen_fit_kw(rng, nkeys=rng.choice([0, 1, 1, 2]),
@@ -1566,8 +1669,13 @@ class CurveEngineC09:
                 if swarm["faults"] and rng.random() < 0.3:
                     op["fault"] = gen_fault(rng, ["minimize"], 2)
                 ops.append(op)
-            elif r < 0.87:
+            elif r < 0.84:
                 ops.append(gen_setfp(rng))
+            elif r < 0.88:
+                ops.append({"op": "mutate_ts",
+                            "ts": rng.choice(["held:small", "held:copy"]),
+                            "col": rng.randrange(12),
+                            "factor": rng.choice([1.5, 0.5, -1.0])})
             else:
                 steps = gen_pipeline(rng)
                 ops.append({"op": "prep",
@@ -1608,10 +1716,19 @@ class CurveEngineC09:
         nontrivial = False
         oracle_checks = 0
         executed = 0
+        ts_epoch = {}        # in-place edits of held training sets
         cache_ref = None     # key of the call that filled the cache
         prep_epoch = 0       # counts preprocessing changes
         changed = 0
+        held = {}
         for i, op in enumerate(run["ops"]):
+            if op["op"] == "mutate_ts":
+                for hk, (X, y) in held.items():
+                    if hk[0] == op["ts"]:
+                        X[:, op["col"] % X.shape[1]] *= op["factor"]
+                        ts_epoch[hk[0]] = ts_epoch.get(hk[0], 0) + 1
+                        probes["held training set edited in place"] += 1
+                continue
             if op["op"] != "rate":
                 before_prep = prep_state(idnt)
                 outcome = apply_op(idnt, op)
@@ -1634,8 +1751,18 @@ class CurveEngineC09:
             tsname = op.get("ts", "zef18")
             names = kw.get("names")
             try:
-                ts = resolve_ts(tsname, names, scratch)
-                ts_ref = resolve_ts(tsname, names, scratch)
+                if tsname.startswith("held:"):
+                    # the caller keeps one (X, y) tuple and passes the very
+                    # same object every time (and may edit it in place)
+                    hk = (tsname, None if names is None else tuple(names))
+                    if hk not in held:
+                        held[hk] = resolve_ts("mem:" + tsname[5:], names,
+                                              scratch)
+                    ts = held[hk]
+                    ts_ref = copy.deepcopy(ts)
+                else:
+                    ts = resolve_ts(tsname, names, scratch)
+                    ts_ref = resolve_ts(tsname, names, scratch)
             except Exception:
                 # feature subset not loadable -> out of domain
                 continue
@@ -1648,6 +1775,9 @@ class CurveEngineC09:
                      "success": bool(idnt.fit_properties.get("success",
                                                              False))}
             key = rate_key(idnt, kw, tsname)
+            # the training set is identified by value (equal arrays from a
+            # new tuple are the same training set)
+            key[2] = [str(x) for x in RaterMemo.ts_key(ts)]
             state_id = core.digest([feats, key[1:]])
             states.add(state_id)
             if changed and (feats["has_hash"] or not feats["fp_empty"]):
@@ -1661,11 +1791,12 @@ class CurveEngineC09:
                 try:
                     with warnings.catch_warnings():
                         warnings.simplefilter("ignore")
-                        ref_rater = RATERS.get(reg, ts_ref, names,
-                                               kw.get("lda"))
+                        ref_rater = REF_RATERS.get(reg, ts_ref, names,
+                                                   kw.get("lda"))
                 except Exception:
                     in_domain = False
-            outcome = apply_op(idnt, {"op": "rate", "kw": call_kw})
+            outcome = apply_op(idnt, {"op": "rate", "kw": call_kw,
+                                      "_alias": tsname.startswith("held:")})
             executed += 1
             logged = dict(outcome)
             log.append({"i": i, "op": "rate", "ts": tsname, "out": logged,
@@ -1764,10 +1895,20 @@ class CurveEngineC09:
             if fitted:
                 probes["rated with a successful current fit"] += 1
             else:
+                # independent of the feature code: without a successful
+                # current fit the answer is -1, or 0 when the one exclusion
+                # criterion that needs no fit (fewer than 600 approach
+                # points) fails
                 probes["rated without a successful current fit"] += 1
-                if exp not in (0.0, -1.0):
-                    raise core.HarnessError(
-                        "features of an unfitted curve are defined")
+                napp = int(np.sum(np.asarray(idnt["segment"]) == 0))
+                allowed = [-1.0] + ([0.0] if napp < 600 else [])
+                if val not in allowed:
+                    feats["expected_kind"] = "no successful fit"
+                    violation = make_violation(
+                        self.prop, "Q2", "nofit-value", feats,
+                        f"no successful current fit (approach points "
+                        f"{napp}): returned {val}, allowed {allowed}", i)
+                    break
             feats["expected_kind"] = why.split(" ->")[0]
             if not (val == exp):
                 violation = make_violation(
@@ -1789,7 +1930,9 @@ class CurveEngineC09:
                 break
             # repeated call: identical value
             again = apply_op(idnt, {"op": "rate", "kw": dict(
-                kw, training_set=resolve_ts(tsname, names, scratch))})
+                kw, training_set=ts if tsname.startswith("held:")
+                else resolve_ts(tsname, names, scratch)),
+                "_alias": tsname.startswith("held:")})
             if again.get("ret") != outcome.get("ret"):
                 violation = make_violation(
                     self.prop, "Q2", "repeat", feats,
@@ -1903,6 +2046,14 @@ def mutate_held(obj, edit):
             if not isinstance(obj, np.ndarray):
                 return False
             obj *= edit["factor"]
+        elif k == "tuple_col_scale":
+            if not isinstance(obj, tuple):
+                return False
+            a = obj[edit.get("index", 0) % len(obj)]
+            if a.ndim == 2:
+                a[:, edit.get("col", 0) % a.shape[1]] *= edit["factor"]
+            else:
+                a[::2] = a[::2][::-1].copy()
         elif k == "array_set":
             if not isinstance(obj, np.ndarray) or obj.size == 0:
                 return False
@@ -1926,6 +2077,11 @@ def c10_new_object(what, spec, idnt):
         lo, hi = spec.get("lo", -1e-6), spec.get("hi", 1e-6)
         a = np.linspace(hi, lo, n)
         return a if spec.get("descending", True) else a[::-1].copy()
+    if what == "trainset":
+        from nanite.rate.rater import IndentationRater
+        X, y = IndentationRater.load_training_set(path=_zef18_path())
+        st = int(spec.get("step", 3))
+        return (np.array(X[::st], copy=True), np.array(y[::st], copy=True))
     if what == "samples":
         rng = np.random.Generator(np.random.PCG64(int(spec.get("seed", 1))))
         return rng.random((int(spec.get("rows", 2)), 15))
@@ -1996,9 +2152,16 @@ def c10_apply(idnt, caller, op):
                 idnt.fit_properties[op["key"]] = A(op["key"], op["value"])
             elif kind == "poc":
                 force = A("force", op["force"])
-                out["ret"] = int(nanite.poc.compute_poc(
-                    force=force, method=op.get("method",
-                                               "deviation_from_baseline")))
+                if op.get("details"):
+                    idx, det = nanite.poc.compute_poc(
+                        force=force, ret_details=True,
+                        method=op.get("method", "deviation_from_baseline"))
+                    out["ret"] = int(idx)
+                    out["aliases_arg"] = _shares(det, force)
+                else:
+                    out["ret"] = int(nanite.poc.compute_poc(
+                        force=force, method=op.get(
+                            "method", "deviation_from_baseline")))
             elif kind == "model":
                 md = nmodel.models_available[op["model"]]
                 params = A("params", op["params"])
@@ -2006,8 +2169,10 @@ def c10_apply(idnt, caller, op):
                 if op.get("residual"):
                     y = A("y", op["y"])
                     r = md.residual(params, x, y, op.get("weight_cp", 5e-7))
+                    out["aliases_arg"] = _shares(r, x) or _shares(r, y)
                 else:
                     r = md.model(params, x)
+                    out["aliases_arg"] = _shares(r, x)
                 out["ret"] = digest_array(np.asarray(r))
             elif kind == "features":
                 names = A("names", op["names"])
@@ -2047,6 +2212,17 @@ def c10_apply(idnt, caller, op):
     return out, changed
 
 
+def _shares(obj, arr):
+    """Does any array inside `obj` share memory with `arr`?"""
+    if isinstance(obj, np.ndarray):
+        return bool(np.shares_memory(obj, arr))
+    if isinstance(obj, dict):
+        return any(_shares(v, arr) for v in obj.values())
+    if isinstance(obj, (list, tuple)):
+        return any(_shares(v, arr) for v in obj)
+    return False
+
+
 def enc_full(v):
     """Deep value snapshot (arrays by digest, params by all attributes)."""
     import lmfit
@@ -2064,7 +2240,7 @@ def c10_gen_scenario(rng, sid):
     again."""
     kind = rng.choice(["params", "params", "init", "init", "steps",
                        "options", "method_kws", "range_x", "names",
-                       "force", "model", "samples"])
+                       "force", "model", "samples", "trainset"])
     s = f"{kind}{sid}"
     extra = {}
     if rng.random() < 0.4:
@@ -2175,9 +2351,25 @@ def c10_gen_scenario(rng, sid):
         ops.append({"op": "mutate", "slot": s, "edit": ed})
         ops.append({"op": "prep", "steps": steps, "options": {"slot": s},
                     "route": rng.choice(["apply", "fit_kw"])})
+    elif kind == "trainset":
+        ops.append({"op": "new", "slot": s, "what": "trainset",
+                    "spec": {"step": rng.choice([3, 4])}})
+        ops.append({"op": "fit", "args": {}})
+        reg = rng.choice(["Decision Tree", "Extra Trees"])
+        ops.append({"op": "rate", "args": {"regressor": reg,
+                                           "training_set": {"slot": s}}})
+        ops.append({"op": "mutate", "slot": s, "edit": {
+            "kind": "tuple_col_scale", "index": rng.choice([0, 0, 1]),
+            "col": rng.randrange(12), "factor": rng.choice([-1.0, 3.0])}})
+        ops.append({"op": "rate", "args": {"regressor": reg,
+                                           "training_set": {"slot": s}}})
     elif kind == "method_kws":
         ops.append({"op": "new", "slot": s, "what": "method_kws",
-                    "spec": {"max_nfev": 300}})
+                    "spec": rng.choice([{"max_nfev": 300},
+                                        {"max_nfev": 300},
+                                        {"maxfev": 200},
+                                        {"max_nfev": 40, "maxiter": 30},
+                                        {"max_nfev": 100, "ftol": 1e-9}])})
         ops.append({"op": "fit", "args": dict(extra,
                                               method_kws={"slot": s})})
         ops.append({"op": "mutate", "slot": s, "edit": {
@@ -2214,11 +2406,13 @@ def c10_gen_scenario(rng, sid):
             "kind": "synthetic", "model": mk, "n": rng.choice([80, 200]),
             "noise": 0.01, "seed": rng.randrange(100)}})
         ops.append({"op": "poc", "force": {"slot": s},
-                    "method": rng.choice(POC_METHODS)})
+                    "method": rng.choice(POC_METHODS),
+                    "details": rng.random() < 0.6})
         ops.append({"op": "mutate", "slot": s, "edit": {
             "kind": "array_scale", "factor": 2.0}})
         ops.append({"op": "poc", "force": {"slot": s},
-                    "method": rng.choice(POC_METHODS)})
+                    "method": rng.choice(POC_METHODS),
+                    "details": rng.random() < 0.6})
     elif kind == "model":
         ops.append({"op": "new", "slot": s + "p", "what": "params",
                     "spec": {"model": mk, "edits": {}}})
@@ -2346,6 +2540,13 @@ class CurveEngineC10:
                 if violation:
                     break
             if violation:
+                break
+            # A4: what a call returns must not be a view of an argument
+            if oa.get("aliases_arg") or ov.get("aliases_arg"):
+                violation = make_violation(
+                    self.prop, "A4", f"returned-aliases-argument:{op['op']}",
+                    feats, f"an object returned by {op['op']} shares memory "
+                    f"with an array argument of the call", i)
                 break
             # A1: worlds agree
             oba, obv = observe(worlds[0][0]), observe(worlds[1][0])
